@@ -20,12 +20,12 @@ for name, props in cat.items():
             if r.returncode != 0:
                 res['%s/%s' % (name, p)] = 'patch-does-not-apply'
                 continue
-            q = subprocess.run([sys.executable, os.path.join(V, 'vp', 'check.py'), p, '--no-evidence'], env=dict(os.environ, VP_REPO=d), capture_output=True, text=True)
+            q = subprocess.run([sys.executable, os.path.join(V, 'vp', 'check.py'), p, '--no-evidence'], env=dict(os.environ, VP_REPO=d, VP_GEN=d + '_gen'), capture_output=True, text=True)
             res['%s/%s' % (name, p)] = {0: 'SURVIVED', 1: 'killed', 2: 'undecided'}.get(q.returncode, 'rc%d' % q.returncode)
             if q.returncode == 0:
                 print('WEAK-CONTRACT: mutant %s is not rejected by the %s check' % (name, p))
         finally:
-            shutil.rmtree(d, ignore_errors=True)
+            shutil.rmtree(d, ignore_errors=True); shutil.rmtree(d + '_gen', ignore_errors=True)
 # behaviour-preserving edits: no check may report a VIOLATION on them
 hcat = json.load(open(os.path.join(V, 'harmless', 'catalogue.json'))) if os.path.exists(os.path.join(V, 'harmless', 'catalogue.json')) else {}
 for name, ent in hcat.items():
@@ -42,13 +42,13 @@ for name, ent in hcat.items():
             if r.returncode != 0:
                 res['harmless:%s/%s' % (name, p)] = 'patch-does-not-apply'
                 continue
-            q = subprocess.run([sys.executable, os.path.join(V, 'vp', 'check.py'), p, '--no-evidence'], env=dict(os.environ, VP_REPO=d), capture_output=True, text=True)
+            q = subprocess.run([sys.executable, os.path.join(V, 'vp', 'check.py'), p, '--no-evidence'], env=dict(os.environ, VP_REPO=d, VP_GEN=d + '_gen'), capture_output=True, text=True)
             ok = q.returncode in ent.get('expect', [0, 2])
             res['harmless:%s/%s' % (name, p)] = 'quiet (rc %d)' % q.returncode if ok else 'FALSE-ALARM rc %d' % q.returncode
             if not ok:
                 print('FALSE-ALARM: behaviour-preserving edit %s makes the %s check exit %d' % (name, p, q.returncode))
         finally:
-            shutil.rmtree(d, ignore_errors=True)
+            shutil.rmtree(d, ignore_errors=True); shutil.rmtree(d + '_gen', ignore_errors=True)
 os.makedirs(os.path.join(V, 'gen'), exist_ok=True)
 json.dump(res, open(os.path.join(V, 'gen', 'sensitivity%s.json' % ('_' + only if only else '')), 'w'), indent=1)
 k = sum(1 for v in res.values() if v == 'killed')
